@@ -8,7 +8,7 @@ Confirms a sub-agent's seeded change (/tmp/wt/out-cxx/change<k>.diff + demo<k>_t
 import sys, os, subprocess, shutil, json, tempfile, re
 pid, k = sys.argv[1], sys.argv[2]
 extra = sys.argv[3:]
-src = "/tmp/wt/out-%s" % pid.lower()
+src = os.environ.get("SEED_SRC", "/tmp/wt/out-%s" % pid.lower())
 patch = os.path.join(src, "change%s.diff" % k)
 demo = os.path.join(src, "demo%s_test.go" % k)
 note = os.path.join(src, "change%s.md" % k)
